@@ -38,6 +38,53 @@ def one(text):
     return None
 
 
+def dangling(fcp):
+    """C08: every user-type reference of an accepted schema resolves to a declaration of the kind it is tagged with"""
+    from fcp.specs.type import StructType, EnumType
+    def walk(t):
+        if isinstance(t, StructType):
+            return None if fcp.get_struct(t.name).is_some() else f"StructType({t.name}) has no struct"
+        if isinstance(t, EnumType):
+            return None if fcp.get_enum(t.name).is_some() else f"EnumType({t.name}) has no enum"
+        u = getattr(t, "underlying_type", None)
+        return walk(u) if u is not None else None
+    for s in fcp.structs:
+        for f in s.fields:
+            w = walk(f.type)
+            if w:
+                return f"{s.name}.{f.name}: {w}"
+    return None
+
+
+def clash_check():
+    """C08/C20: a module whose enum has the name of a struct of the importer (and uses it) keeps its references resolvable"""
+    d = tempfile.mkdtemp(prefix="c08_")
+    try:
+        os.makedirs(os.path.join(d, "sub"))
+        open(os.path.join(d, "sub", "m.fcp"), "w").write('version: "3"\nenum A { X = 0, Y = 1, }\nstruct M { a @0: A, o @1: Optional[[A, 2]], }\n')
+        open(os.path.join(d, "root.fcp"), "w").write('version: "3"\nstruct A { x @0: u8, }\nmod sub.m;\n')
+        r = get_fcp(os.path.join(d, "root.fcp"), Logger({}))
+        if r.is_ok():
+            w = dangling(r.unwrap())
+            if w:
+                return {"check": "accepted schema (importer struct A, module enum A) has an unresolved reference", "observed": w, "scenario": "clash"}
+        # a forward reference inside a module: the error must name the type
+        open(os.path.join(d, "sub", "m.fcp"), "w").write('version: "3"\nstruct Inner { o @0: Optional[[Later, 2]], }\nstruct Later { y @0: u8, }\n')
+        open(os.path.join(d, "root.fcp"), "w").write('version: "3"\nmod sub.m;\n')
+        lg = Logger({})
+        r = get_fcp(os.path.join(d, "root.fcp"), lg)
+        if r.is_ok():
+            return {"check": "forward reference inside a module accepted", "scenario": "clash"}
+        s = lg.error(r.err())
+        if "Later" not in s:
+            return {"check": "resolution error inside a module does not name the type", "observed": s[:300], "scenario": "clash"}
+    except BaseException as e:
+        return {"check": "an exception escaped", "observed": type(e).__name__ + ": " + str(e)[:200], "scenario": "clash"}
+    finally:
+        shutil.rmtree(d, ignore_errors=True)
+    return None
+
+
 def split_check():
     """C20: moving declarations into a module yields the same schema; errors name the module / file"""
     d = tempfile.mkdtemp(prefix="c20_")
@@ -86,7 +133,7 @@ def search(pid, seed, tier, skip):
         f = one(t)
         if f:
             return {"failure": f, "tried": n}
-    f = split_check()
+    f = split_check() or clash_check()
     if f:
         return {"failure": f, "tried": n}
     return {"failure": None, "tried": n}
@@ -98,6 +145,6 @@ if __name__ == "__main__":
         print(json.dumps(search(sys.argv[2], int(sys.argv[3]), sys.argv[4], sys.argv[5:]), default=str))
     elif cmd == "replay":
         r = json.loads(sys.argv[2])
-        print(json.dumps({"fails": (one(r["input"]) if "input" in r else split_check()) is not None}))
+        print(json.dumps({"fails": (one(r["input"]) if "input" in r else (clash_check() if r.get("scenario") == "clash" else split_check())) is not None}))
     elif cmd == "witness":
         print(json.dumps({"fails": False}))
